@@ -54,6 +54,7 @@ func cmdCheck(args []string) int {
 	covers := fs.Bool("covers", false, "diagnostic: report for every return whether it is reachable under the assumptions")
 	noinc := fs.Bool("noinc", false, "skip the incremental pre-pass")
 	noreplay := fs.Bool("noreplay", false, "do not search for and replay counterexamples")
+	writeHints := fs.Bool("writehints", false, "record, for slow obligations, which solver configuration proved them (speed hints for later runs)")
 	fs.Parse(args)
 	start := time.Now()
 	eng, err := newEngine(*repo, allPkgs)
@@ -192,7 +193,7 @@ func cmdCheck(args []string) int {
 			fmt.Println("queries kept in", dir)
 		}
 	}()
-	opt := solveOpts{timeout: 30 * time.Second, workers: (runtime.NumCPU() + 2) / 3, dir: dir, solvers: []string{"z3new", "z3", "cvc5"}, keep: *keep}
+	opt := solveOpts{timeout: 45 * time.Second, workers: (runtime.NumCPU() + 2) / 3, dir: dir, solvers: []string{"z3new", "z3", "cvc5"}, keep: *keep}
 	if *tier == "thorough" {
 		opt.timeout = 60 * time.Second
 		opt.allAgree = true
@@ -221,6 +222,20 @@ func cmdCheck(args []string) int {
 		return 2
 	}
 	results := solveAll(eng, fvs, opt)
+	if *writeHints {
+		h := map[string]string{}
+		if data, err := os.ReadFile("/verif/solver_hints.json"); err == nil {
+			json.Unmarshal(data, &h)
+		}
+		for _, r := range results {
+			sv := strings.TrimSuffix(r.Solver, "(slow)")
+			if r.Status == "unsat" && r.Ms > 2500 && sv != "z3new-incremental" && sv != "z3new" {
+				h[r.Ob.Name] = sv
+			}
+		}
+		data, _ := json.MarshalIndent(h, "", " ")
+		os.WriteFile("/verif/solver_hints.json", data, 0o644)
+	}
 	failed := report(eng, *prop, *tier, fvs, results, under, start, loadMs, *verbose, *evdir, *noev, dir)
 	if failed > 0 {
 		return 1
